@@ -29,6 +29,9 @@ impl<K: SimKernel<D>, const D: usize> C03<K, D> {
     }
 }
 
+/// (operation kind, failpoint site) pairs where the site is the operation's own undo action.
+const UNDO_STEPS: &[(&str, &str)] = &[("flip_k1_insert", "prim.tds_remove_vertex")];
+
 fn safe_snap<K: SimKernel<D>, const D: usize>(dt: &Dt<K, D>) -> Option<Snap> {
     std::panic::catch_unwind(std::panic::AssertUnwindSafe(|| Snap::of(dt))).ok()
 }
@@ -107,6 +110,12 @@ impl<K: SimKernel<D>, const D: usize> Monitor<K, D> for C03<K, D> {
         // never crowd out the named internal error returns
         let mut ksingles: Vec<(String, u64)> = Vec::new();
         for (site, n) in &out0.counts {
+            // a fault is never injected into an undo step (section 6, C03: "snapshot restore itself is
+            // not a failpoint"): flip_k1_insert undoes its vertex insertion with Tds::remove_vertex
+            if UNDO_STEPS.iter().any(|(o, s)| *o == op.kind() && s == site) {
+                ctx.stats.add("c03.undo_step_hits_not_armed", *n);
+                continue;
+            }
             for i in 0..*n {
                 if crate::kfault::is_kernel_site(site) {
                     ksingles.push((site.clone(), i));
@@ -164,12 +173,14 @@ impl<K: SimKernel<D>, const D: usize> Monitor<K, D> for C03<K, D> {
                     let same = check_unchanged(ctx, pre, &c, &out, &faults, "state-changed-on-failure");
                     // at most one new twin per step, so that the twins stem from different calls
                     if same && self.twins.len() < self.max_twins && self.twins.last().is_none_or(|t| t.1 != ctx.step) && rng.chance(1, 3) {
-                        self.twins.push((c, ctx.step, format!("{}@{}", f.0, f.1)));
+                        self.twins.push((c, ctx.step, format!("{}@{}@{}", f.0, f.1, op.kind())));
                     }
                 }
                 OutKind::Panic => {
                     ctx.stats.panics_under_fault += 1;
                     ctx.stats.bump(&format!("c03.panic_under_fault.{}", f.0));
+                    let shape: String = out.detail.lines().next().unwrap_or("").chars().take(90).map(|c| if c.is_ascii_digit() { '#' } else { c }).collect();
+                    ctx.stats.bump(&format!("c03.panic_under_fault_message.{}.{}: {}", op.kind(), f.0, shape));
                 }
                 OutKind::Ok => {
                     ctx.stats.bump("c03.fault_absorbed");
@@ -202,7 +213,7 @@ impl<K: SimKernel<D>, const D: usize> Monitor<K, D> for C03<K, D> {
             } else {
                 continue;
             };
-            if second == first {
+            if second == first || UNDO_STEPS.iter().any(|(o, st)| *o == op.kind() && *st == second.0) {
                 continue;
             }
             let mut faults = faults1.clone();
@@ -254,7 +265,7 @@ impl<K: SimKernel<D>, const D: usize> Monitor<K, D> for C03<K, D> {
                 _ => false,
             };
             if !(same_class && same_state) && out.kind != OutKind::Panic {
-                let sig = format!("twin|failed={}|op={}", label.split('@').next().unwrap_or(""), op.kind());
+                let sig = format!("twin|failedop={}|failed={}|op={}", label.split('@').nth(2).unwrap_or(""), label.split('@').next().unwrap_or(""), op.kind());
                 push_violation(
                     ctx.violations,
                     violation(
@@ -263,8 +274,8 @@ impl<K: SimKernel<D>, const D: usize> Monitor<K, D> for C03<K, D> {
                         ctx.step,
                         sig,
                         format!(
-                            "object whose call failed under {} at step {} now answers {} (original: {}), canonical states equal: {}",
-                            label, since, tout.class(), out.class(), same_state
+                            "object whose call failed under {} at step {} now answers {} [{}] (original: {} [{}]), canonical states equal: {}",
+                            label, since, tout.class(), tout.detail, out.class(), out.detail, same_state
                         ),
                     ),
                 );
